@@ -246,7 +246,11 @@ func (p c02) Run(c *core.Ctx) {
 		ty := staticType(vars)
 		for i := 0; i < 30; i++ {
 			t := hast.Ty(r.Intn(3))
-			e := sc.Expr(r, t, r.Range(1, 6))
+			maxDepth := 6
+			if c.Thorough() {
+				maxDepth = 8
+			}
+			e := sc.Expr(r, t, r.Range(1, maxDepth))
 			planted := false
 			if r.Chance(1, 4) {
 				e = plantFault(r, e, ty)
